@@ -423,7 +423,10 @@ Chk_DayEnd(t, s, e) ==
             tmin |-> s.d.Tmin, tmax |-> s.d.Tmax, et0 |-> s.d.ET0, tr |-> s.d.tr]
   IN Tag("DayEnd.finite", [ flux |-> fin ])
      \cup (IF fin THEN Tag("DayEnd.closure", DayClosureC(k, s.begin, s.ws, led))
-                       \cup Tag("DayEnd.partition", DayPartitionC(k, s.begin, led))
+                       \cup Tag("DayEnd.partition", DayPartitionC(k, s.begin, led)
+                                   \* water can only have been standing (and be released) on a field that has bunds in some period
+                                   @@ [ negInflNeedsBunds |-> (IsNeg(led.infl) /\ ~Near(led.infl, Z, Tol9)) =>
+                                                                (Cfg(t).field.effBunds \/ Cfg(t).fallow.effBunds) ])
                        \cup Tag("DayEnd.bounds", DayBoundsC(k, s.ws, led))
                        \cup Tag("DayEnd.signs", DaySignsC(k, led))
                        \cup Tag("DayEnd.gw", DayGwC(k, s.ws, led))
